@@ -406,6 +406,92 @@ class Fragment:
         self.text = self.text[:open_paren + 1] + new_inner + self.text[close:]
         self.note('V-CLOSURE', 1, f"closure in {call!r}: params `{mm.group(3)}` typed as `{params}`, result named, ensures added; body kept verbatim")
 
+    def desugar_assert(self):
+        """V-ASSERT: `assert!(E);` -> `{ let __c: bool = E; if !__c { rust_panic(); } }` where rust_panic() requires false
+        (so the absence of the panic is a proof obligation and Verus syntax may be used inside E)."""
+        s = self._src()
+        out = []
+        last = 0
+        cnt = 0
+        for mm in re.finditer(r'\bassert!\(', self.text):
+            if not s.mask[mm.start()] or mm.start() < last:
+                continue
+            op = mm.end() - 1
+            cl = s.match_close(op)
+            inner = self.text[op + 1:cl]
+            # drop a trailing message argument `, "..."`
+            j = cl + 1
+            while j < len(self.text) and self.text[j] in ' \t':
+                j += 1
+            if j < len(self.text) and self.text[j] == ';':
+                j += 1
+            out.append(self.text[last:mm.start()])
+            out.append('{ let __c: bool = ' + inner.strip() + '; if !__c { rust_panic(); } }')
+            last = j
+            cnt += 1
+        out.append(self.text[last:])
+        self.text = ''.join(out)
+        self.note('V-ASSERT', cnt, '`assert!(E);` -> `{ let __c: bool = E; if !__c { rust_panic(); } }` with `fn rust_panic() requires false`')
+
+    # --- V-ITER: declared desugarings of std iterator adapter chains (templates, see DESIGN.md 3.3) ---------
+    def iter_skip_take_foreach(self, nth=1):
+        """X.iter_mut().skip_while(|w| P).take_while(|w| Q).for_each(|w| { B });  ->  two index loops.
+        P, Q and B are copied verbatim."""
+        rx = re.compile(r'(?P<x>[A-Za-z_]\w*(?:\s*\.\s*[A-Za-z_]\w*)*?)\s*\.iter_mut\(\)\s*\.skip_while\(\|(?P<v1>\w+)\|\s*(?P<p>[^)]*?)\)\s*'
+                        r'\.take_while\(\|(?P<v2>\w+)\|\s*(?P<q>[^)]*?)\)\s*\.for_each\(\|(?P<v3>\w+)\|\s*\{(?P<b>.*?)\}\s*\);', re.S)
+        m = None
+        it = list(rx.finditer(self.text))
+        if len(it) < nth:
+            raise ScanError(f"{self.what}: V-ITER skip_while/take_while/for_each chain #{nth} not found")
+        m = it[nth - 1]
+        x = re.sub(r'\s+', '', m.group('x'))
+        new = (f"let mut __i: usize = 0;\n"
+               f"                while __i < {x}.len() && ({re.sub(chr(92) + 'b' + m.group('v1') + chr(92) + 'b', x + '[__i]', m.group('p').strip())}) {{ __i += 1; }}\n"
+               f"                while __i < {x}.len() && ({re.sub(chr(92) + 'b' + m.group('v2') + chr(92) + 'b', x + '[__i]', m.group('q').strip())}) {{\n"
+               f"                    {{ let {m.group('v3')} = &mut {x}[__i];{m.group('b')}}}\n"
+               f"                    __i += 1;\n"
+               f"                }}")
+        self.text = self.text[:m.start()] + new + self.text[m.end():]
+        self.note('V-ITER', 1, '`X.iter_mut().skip_while(|w| P).take_while(|w| Q).for_each(|w| {B});` -> `let mut __i = 0; while __i < X.len() && (P[w := X[__i]]) { __i += 1; } while __i < X.len() && (Q[w := X[__i]]) { { let w = &mut X[__i]; B } __i += 1; }` (P, Q with the closure parameter substituted, B verbatim)')
+
+    def iter_partition_point(self, nth=1):
+        """let S = X.partition_point(|w| P);  ->  linear scan for the first element falsifying P.
+        Equal to the binary search of std when X is partitioned w.r.t. P (an obligation of the unit)."""
+        rx = re.compile(r'let (?P<s>\w+) = (?P<x>[A-Za-z_]\w*(?:\s*\.\s*[A-Za-z_]\w*)*?)\s*\.partition_point\(\|(?P<v>\w+)\|\s*(?P<p>[^)]*?)\);')
+        it = list(rx.finditer(self.text))
+        if len(it) < nth:
+            raise ScanError(f"{self.what}: V-ITER partition_point #{nth} not found")
+        m = it[nth - 1]
+        x, sv = re.sub(r'\s+', '', m.group('x')), m.group('s')
+        new = (f"let mut {sv}: usize = 0;\n"
+               f"        while {sv} < {x}.len() && ({re.sub(chr(92) + 'b' + m.group('v') + chr(92) + 'b', x + '[' + sv + ']', m.group('p').strip())}) {{ {sv} += 1; }};")
+        self.text = self.text[:m.start()] + new + self.text[m.end():]
+        self.note('V-ITER', 1, '`let s = X.partition_point(|w| P);` -> `let mut s = 0; while s < X.len() && P[X[s]] { s += 1; }` (P verbatim; equal to std binary search on a partitioned sequence)')
+
+    def iter_drain_filter_map_collect(self, nth=1):
+        """X.drain(R).filter(|w| F).map(|w| M).collect()  ->  pop_front loop pushing M for the elements satisfying F.
+        R is `..` or `..split`."""
+        rx = re.compile(r'(?P<x>[A-Za-z_]\w*(?:\s*\.\s*[A-Za-z_]\w*)*?)\s*\.drain\((?P<r>\.\.\w*)\)\s*\.filter\(\|(?P<v1>\w+)\|\s*(?P<f>[^)]*?)\)\s*'
+                        r'\.map\(\|(?P<v2>\w+)\|\s*(?P<m>.*?)\)\s*\.collect\(\)', re.S)
+        it = list(rx.finditer(self.text))
+        if len(it) < nth:
+            raise ScanError(f"{self.what}: V-ITER drain/filter/map/collect chain #{nth} not found")
+        m = it[nth - 1]
+        x = re.sub(r'\s+', '', m.group('x'))
+        rng = m.group('r')
+        cond = f"{x}.len() > 0" if rng == '..' else f"__j < {rng[2:]}"
+        counter = '' if rng == '..' else ' let mut __j: usize = 0;'
+        step = '' if rng == '..' else '                __j += 1;\n'
+        new = (f"{{ let mut __out = Vec::new();{counter}\n"
+               f"            while {cond} {{\n"
+               f"                let __w = {x}.pop_front().unwrap();\n"
+               f"                if {{ let {m.group('v1')} = &__w; {m.group('f').strip()} }} {{ let {m.group('v2')} = __w; __out.push({m.group('m').strip()}); }}\n"
+               f"{step}"
+               f"            }}\n"
+               f"            __out }}")
+        self.text = self.text[:m.start()] + new + self.text[m.end():]
+        self.note('V-ITER', 1, '`X.drain(R).filter(|w| F).map(|w| M).collect()` -> loop popping the front, pushing M for elements satisfying F (F, M verbatim)')
+
     # --- function-shaped fragments -----------------------------------------------------------
     def fn_body_open(self):
         s = self._src()
